@@ -468,9 +468,9 @@ def run(ctx, res):
                 res.fail("C17 keys_upper: a stored key is not an upper-case str", inp, observed=state)
             if tr is not None:
                 m_out, m_ref, ok, m_state, m_rstate = tr[i]
-                res.corr("CaselessDict.step (result, state)", inp, [r, state], [m_out, m_state])
+                res.corr("CaselessDict.step", inp, [r, state], [m_out, m_state])
                 # the Coq reference machine is a plain dict: same result and state as Python's dict from the same state
-                res.corr("reference machine rstep vs Python dict", inp, [rr, rstate], [m_ref, m_rstate])
+                res.corr("rstep-vs-python-dict", inp, [rr, rstate], [m_ref, m_rstate])
             else:
                 ok = 1 if finding_of(o) is None else 0
                 m_out = None
@@ -540,7 +540,7 @@ def run(ctx, res):
                 cmeta.append(([ks, order, "items"], [[k, v] for k, v in canonsort_items(t, order)]))
     if M:
         for (inp, got), m in zip(cmeta, M.batch(creqs)):
-            res.corr("canonsort_keys / canonsort_items", inp, got, m)
+            res.corr("canonsort_keys+items", inp, got, m)
     res.sample({"ops": [wire_op(o) for o in meta[0][2]], "impl": [[r[1], r[2]] for r in meta[0][3]]})
     res.sample({"ops": [wire_op(o) for o in meta[-1][2]][:6], "impl": [[r[1], r[2]] for r in meta[-1][3]][:6]})
     res.sample({"canonsort": cmeta[len(cmeta) // 2][0], "result": cmeta[len(cmeta) // 2][1]})
